@@ -156,7 +156,7 @@ def theorem_names(path):
         src = strip_lean_comments(open(path, encoding="utf-8").read())
     except FileNotFoundError:
         return []
-    return re.findall(r"^\s*theorem\s+([A-Za-z_][A-Za-z0-9_.']*)", src, re.M)
+    return re.findall(r"^\s*theorem\s+([^\s({\[:]+)", src, re.M)
 
 
 def audit(ctx, prop_modules):
@@ -200,7 +200,7 @@ def audit(ctx, prop_modules):
     out = r.stdout + r.stderr
     # "'name' depends on axioms: [a, b]"  |  "'name' does not depend on any axioms"
     seen = {}
-    for m in re.finditer(r"'([^']+)' (depends on axioms: \[([^\]]*)\]|does not depend on any axioms)", out, re.S):
+    for m in re.finditer(r"'(\S+)' (depends on axioms: \[([^\]]*)\]|does not depend on any axioms)", out, re.S):
         ax = [a.strip() for a in (m.group(3) or "").replace("\n", " ").split(",") if a.strip()]
         seen[m.group(1).split(".")[-1]] = ax
     for _, n in names:
